@@ -16,6 +16,7 @@ CONSTANTS
   BugDoubleStore = TRUE
   BugNoCloseUnclean = FALSE
   FixStreamCtxStore = TRUE
+  BugKeepAbandoned = FALSE
   Emit = FALSE
   WarmChoices = {FALSE}
 INVARIANTS TypeOK StreamStoreExactlyOnce SessionIsolated Exclusive RejectAfterRelease MarkedWhenReleased CleanOnReturn
